@@ -125,6 +125,9 @@ def gen_request(r, v, weights=None):
             f = {k: v_ for k, v_ in f.items() if k in ("title",)}
         if r.p(5):
             f["body"] = "both"
+        # one time in eight with a character device as stdin (/dev/null: nothing to read): --body-stdin still decides the input mode
+        if r.p(12):
+            return {"cmd": kind, "piped": False, "body_stdin": True, "flags": f, "stdin_text": "", "json": None}, agent
         return {"cmd": kind, "piped": True, "body_stdin": True, "flags": f, "stdin_text": r.weighted([(body, 80), ("", 20)]), "json": None}, agent
     if kind == "set":
         tid, _ = some_id(r, v, "task")
@@ -135,6 +138,8 @@ def gen_request(r, v, weights=None):
         if mode == "flags":
             return {"cmd": "set", "id": tid, "piped": False, "body_stdin": False, "flags": flags_from(d), "json": None}, agent
         f = flags_from(d); body = f.pop("body", "new body")
+        if r.p(12):
+            return {"cmd": "set", "id": tid, "piped": False, "body_stdin": True, "flags": f, "stdin_text": "", "json": None}, agent
         return {"cmd": "set", "id": tid, "piped": True, "body_stdin": True, "flags": f,
                 "stdin_text": r.weighted([(body, 85), ("", 8), ("  \n", 7)]), "json": None}, agent
     if kind == "claim":
